@@ -2,6 +2,13 @@
 
 package connmgr
 
+import (
+	"fmt"
+	"sort"
+	"sync"
+	"sync/atomic"
+)
+
 // VerifFailures returns the failure counters of the connection manager.
 func VerifFailures(cm *ConnManager) (global uint64, perAddr map[string]uint16) {
 	cm.failedAttemptsMutex.RLock()
@@ -11,4 +18,25 @@ func VerifFailures(cm *ConnManager) (global uint64, perAddr map[string]uint16) {
 		perAddr[k] = v
 	}
 	return cm.globalFailedAttempts, perAddr
+}
+
+// verifMaps maps a connection manager to its handler's private pending/conns maps (stored by a
+// one-line overlay rewrite of connHandler).
+var verifMaps sync.Map
+
+// VerifHandlerState describes the handler's private maps: how many requests are registered as
+// pending, how many connections it counts as established, and the sorted retry counts and
+// states of the pending requests. Only to be called while the handler is idle.
+func VerifHandlerState(cm *ConnManager) string {
+	v, ok := verifMaps.Load(cm)
+	if !ok {
+		return "?"
+	}
+	m := v.([2]map[uint64]*ConnReq)
+	var ps []string
+	for _, c := range m[0] {
+		ps = append(ps, fmt.Sprintf("%v/r%d/p%v", c.State(), atomic.LoadUint32(&c.retryCount), c.Permanent))
+	}
+	sort.Strings(ps)
+	return fmt.Sprintf("pending=%v conns=%d", ps, len(m[1]))
 }
